@@ -6,10 +6,13 @@ cd /verif || exit 2
 mkdir -p /tmp/par
 ls -d seeded/$G/ | xargs -n1 basename > /tmp/par/seeds.list
 : > /tmp/par/verify.log
+# the machinery is snapshotted once, so that /verif can be edited while the regression runs
+rsync -a --delete --exclude /target --exclude /evidence --exclude /replays /verif/ /tmp/par/snap/ || exit 2
+export PAR_SRC=/tmp/par/snap
 for i in $(seq 1 $N); do
   ( awk -v n=$N -v i=$i 'NR % n == i - 1' /tmp/par/seeds.list | while read n; do
-      prop=$(python3 -c "import json;print(json.load(open('seeded/$n/meta.json'))['property'])")
-      out=$(tools/par_try.sh v$i seeded/$n/patch.diff $prop 2>&1 | tail -3 | tr '\n' ' ')
+      prop=$(python3 -c "import json;print(json.load(open('/tmp/par/snap/seeded/$n/meta.json'))['property'])")
+      out=$(tools/par_try.sh v$i /tmp/par/snap/seeded/$n/patch.diff $prop 2>&1 | tail -3 | tr '\n' ' ')
       case "$out" in
         *"does not apply"*) echo "$n $prop DOES-NOT-APPLY" ;;
         *"exit=1"*) echo "$n $prop caught" ;;
